@@ -57,9 +57,10 @@ KNOWN = {"F20-all-touched-lines": f20}
 def case(draw):
     nt = draw(st.integers(1, 12))
     nf = draw(st.integers(1, 12)) if draw(st.integers(0, 3)) else nt
-    t0 = draw(st.sampled_from([0.0, 0.5, 3.0]))
+    # templates may start below zero (a two-sided spectrum, a time axis centred on a trigger): geometries cannot, the axes can
+    t0 = draw(st.sampled_from([0.0, 0.5, 3.0, 0.0, 0.5, 3.0, -1.0]))
     dt = draw(st.sampled_from([0.25, 0.5, 1.0, 2.5]))
-    f0 = draw(st.sampled_from([0.0, 100.0, 1000.0]))
+    f0 = draw(st.sampled_from([0.0, 100.0, 1000.0, 0.0, 100.0, 1000.0, -250.0, -2000.0]))
     df = draw(st.sampled_from([50.0, 125.0, 1000.0]))
     order = draw(st.sampled_from(["ft", "tf"]))
     contents = draw(st.sampled_from(["zeros", "ramp", "nan"]))
